@@ -126,3 +126,166 @@ def replay_api(rep):
         args += ["--scale", rep["scale"], "--scale-min", "0"]
     out = json.loads(vlib.run_harness(args))
     return out["mismatches"]
+
+
+# ---------------------------------------------------------------------------------------------------
+# impl -> spec: trace validation
+# ---------------------------------------------------------------------------------------------------
+TRACE_JAVA = ["-Xss1g", "-XX:+UseSerialGC", "-Xmx3g", "-Dtlc2.tool.queue.IStateQueue=StateDeque"]
+
+
+def trace_cfg(consts):
+    c = "CONSTANTS\n" + "".join(f"  {k} = {v}\n" for k, v in consts.items())
+    return c + "SPECIFICATION Spec\nCONSTRAINT Progress\nPOSTCONDITION Accepted\nCHECK_DEADLOCK FALSE\n"
+
+
+def _tlc_trace(module, consts, trace_path, wd, timeout):
+    r = vlib.run_tlc(module, trace_cfg(consts), wd, workers=1, timeout=timeout, java_opts=TRACE_JAVA, env_extra={"TRACE": trace_path})
+    rej = None
+    for ln in vlib.tagged_lines(r["out"], "REJECTED"):
+        rej = ln
+    return r, rej
+
+
+def validate_trace_file(module, consts, trace_path, name, timeout=1500):
+    """Validate one ndjson trace; returns (states, events_consumed, rejections[list of (scen index, text)])."""
+    import re
+    events = [json.loads(x) for x in open(trace_path)]
+    rejections = []
+    states = 0
+    consumed = 0
+    rounds = 0
+    cur = events
+    while cur and rounds < 6:
+        rounds += 1
+        wd = vlib.workdir(name + f"_r{rounds}")
+        p = os.path.join(wd, "trace.ndjson")
+        with open(p, "w") as fh:
+            for e in cur:
+                fh.write(json.dumps(e) + "\n")
+        r, rej = _tlc_trace(module, consts, p, wd, timeout)
+        states += r.get("distinct", 0)
+        if rej is None:
+            if not r["ok"]:
+                raise vlib.ToolError(f"TLC failed validating {name} (rc={r['rc']}):\n" + r["out"][-3000:])
+            consumed += len(cur)
+            break
+        m = re.match(r"\s*(\d+),", rej)
+        pos = int(m.group(1))
+        if pos > len(cur):
+            raise vlib.ToolError("trace ended inside a call: " + rej)
+        bad = cur[pos - 1]["scen"]
+        rejections.append((bad, f"trace rejected at event {pos} ({cur[pos-1]['ev']}) of scenario {bad}", cur[pos - 1]))
+        consumed += pos - 1
+        cur = [e for e in cur if e["scen"] > bad]
+    return states, consumed, rejections
+
+
+def trace_stage(prop, name, scen, seed, module="TraceVerify", consts=None, calls="verify", arith=True, parallel=10, per_file=6, timeout=1500):
+    """Run scenarios on the free-module group with all instruments on, validate the recorded traces with TLC."""
+    from concurrent.futures import ThreadPoolExecutor
+    st = StageResult(f"trace:{module}:{name}")
+    t0 = time.time()
+    consts = consts or {"Strict": "FALSE", "CheckArith": "TRUE" if arith else "FALSE", "CheckLayout": "FALSE"}
+    wd = vlib.workdir(f"{prop}_trace_{name}")
+    sp = os.path.join(wd, "scen.ndjson")
+    with open(sp, "w") as fh:
+        for s in scen:
+            fh.write(json.dumps(s) + "\n")
+    tp = os.path.join(wd, "trace.ndjson")
+    args = ["trace", "--scen", sp, "--out", tp, "--seed", str(seed), "--calls", calls] + (["--arith"] if arith else [])
+    info = json.loads(vlib.run_harness(args))
+    st.notes["recorded"] = info
+    # split by scenario groups so files validate in parallel
+    groups = {}
+    for line in open(tp):
+        e = json.loads(line)
+        groups.setdefault(e["scen"] // per_file, []).append(line)
+    files = []
+    for g, lines in sorted(groups.items()):
+        fp = os.path.join(wd, f"part{g}.ndjson")
+        with open(fp, "w") as fh:
+            fh.writelines(lines)
+        files.append((g, fp))
+
+    def work(item):
+        g, fp = item
+        return validate_trace_file(module, consts, fp, f"{prop}_tv_{name}_{g}", timeout)
+
+    with ThreadPoolExecutor(max_workers=parallel) as ex:
+        results = list(ex.map(work, files))
+    for (g, fp), (states, consumed, rejs) in zip(files, results):
+        st.states += states
+        st.transitions += states
+        st.evaluations += consumed
+        for bad, text, ev in rejs:
+            st.add_violation(f"[{module}/{name}] {text}",
+                             {"kind": "trace", "module": module, "consts": consts, "calls": calls, "arith": arith, "seed": seed, "index": bad,
+                              "scenario": scen[bad], "message": text})
+    st.traces += info["calls"] - len(st.violations)
+    for s in scen:
+        st.distinct.add(scenario_class(s))
+    st.samples.append({"trace_of_scenario": scen[0]["sc"], "events_first_file": sum(1 for _ in open(files[0][1])) if files else 0})
+    st.notes["constants"] = consts
+    st.wall = time.time() - t0
+    return st
+
+
+def replay_trace(rep):
+    wd = vlib.workdir("replay_trace")
+    sp = os.path.join(wd, "scen.ndjson")
+    with open(sp, "w") as fh:
+        fh.write(json.dumps(rep["scenario"]) + "\n")
+    tp = os.path.join(wd, "trace.ndjson")
+    args = ["trace", "--scen", sp, "--out", tp, "--seed", str(rep["seed"]), "--calls", rep["calls"], "--first-index", str(rep["index"])] + (["--arith"] if rep["arith"] else [])
+    vlib.run_harness(args)
+    _, _, rejs = validate_trace_file(rep["module"], rep["consts"], tp, "replay_tv")
+    return [r[1] for r in rejs]
+
+
+def pick_scenarios(family, tier, seed, pred, count, prop="x"):
+    """Behaviours of MC_Api[family] satisfying pred, a seeded sample of `count`."""
+    wd = vlib.workdir(f"{prop}_pick_{family}")
+    r = vlib.run_tlc("MC_Api", api_cfg(family, tier), wd, workers=8, timeout=3000)
+    if not r["ok"]:
+        raise vlib.ToolError(f"TLC failed on MC_Api[{family}]:\n" + r["out"][-2000:])
+    scen = [s for s in vlib.replay_lines(r["out"]) if pred(s)]
+    scen.sort(key=lambda s: json.dumps(s, sort_keys=True))
+    rng = random.Random(seed * 7919 + 13)
+    if len(scen) > count:
+        scen = rng.sample(scen, count)
+    return scen, r
+
+
+# ---------------------------------------------------------------------------------------------------
+# design-level model checking of the algebra
+# ---------------------------------------------------------------------------------------------------
+def algebra_cfg(p, n, m, t, mode, bug="none"):
+    return (f'CONSTANTS P = {p} N = {n} M = {m} T = {t} Bug = "{bug}" Mode = "{mode}"\n'
+            "SPECIFICATION Spec\nINVARIANTS T0 T1 T2 T3\nCHECK_DEADLOCK FALSE\n")
+
+
+ALG_JAVA = ["-XX:+UseParallelGC", "-XX:ParallelGCThreads=4", "-Xmx8g"]
+
+
+def algebra_stage(prop, configs, negatives=(), workers=8, timeout=3000):
+    """TLC checks T0..T3 of MC_Algebra exhaustively over GF(p) for each config (p, n, m, t, mode)."""
+    st = StageResult("mc:algebra")
+    t0 = time.time()
+    for (p, n, m, t, mode) in configs:
+        wd = vlib.workdir(f"{prop}_alg_{p}_{n}_{m}_{t}_{mode}")
+        r = vlib.run_tlc("MC_Algebra", algebra_cfg(p, n, m, t, mode), wd, workers=workers, timeout=timeout, java_opts=ALG_JAVA)
+        if not r["ok"]:
+            raise vlib.ToolError(f"MC_Algebra p={p} n={n} m={m} t={t} {mode}: specification-level failure {r['violated']}\n" + r["out"][-2500:])
+        st.states += r["distinct"]
+        st.transitions += r["generated"]
+        st.samples.append({"mc_algebra": {"p": p, "n": n, "m": m, "t": t, "mode": mode, "distinct_states": r["distinct"]}})
+    for (p, n, m, t, mode, bug, inv) in negatives:
+        wd = vlib.workdir(f"{prop}_algneg_{bug}")
+        r = vlib.run_tlc("MC_Algebra", algebra_cfg(p, n, m, t, mode, bug), wd, workers=workers, timeout=timeout, java_opts=ALG_JAVA)
+        st.negatives.append({"name": bug, "expected": inv, "violated": r["violated"]})
+        if inv not in r["violated"]:
+            raise vlib.ToolError(f"seeded specification bug {bug} was not caught by TLC ({inv} vacuous?)")
+    st.notes["configs"] = [list(c) for c in configs]
+    st.wall = time.time() - t0
+    return st
